@@ -184,10 +184,31 @@ def frame_tokens(m: Model, leaf: Any, sc: Any = None) -> List[Tuple[Any, ...]]:
     return _merge(out)
 
 
+def _extra_reachable(m: Model, leaf: Any) -> bool:
+    """Extra boolean parameters of Tag.get_html_string: a path that assumes a non-default value is only reachable when
+    some call site can pass that value (a variable argument can carry either value)."""
+    memo = leaf.run.path.memo
+    for nm, dflt in getattr(m, "tag_extra", {}).items():
+        if not isinstance(dflt, bool):
+            continue
+        ch = memo.get(("param", nm))
+        if ch is None:
+            continue
+        val = ch == 0
+        if val == dflt:
+            continue
+        passed = getattr(m, "tag_extra_passed", {}).get(nm, set())
+        if not any(a[0] != "const" or a[1] == val for a in passed):
+            return False
+    return True
+
+
 def frames(m: Model) -> Iterable[Tuple[FrameScenario, List[Tuple[Any, List[Tuple[Any, ...]], List[Any]]]]]:
     for sc in frame_scenarios(m):
         hits = []
         for leaf in m.frame_leaves:
+            if not _extra_reachable(m, leaf):
+                continue
             ok, free = frame_leaf_matches(m, leaf, sc)
             if ok:
                 hits.append((leaf, frame_tokens(m, leaf, sc), free))
